@@ -512,7 +512,7 @@ func (x *Exec) specCall(c *SpecCtx, e *Expr) (*Val, error) {
 		if err != nil {
 			return nil, err
 		}
-		return scalar(tArith("-", as[0].T, x.timeEpoch()), types.Typ[types.Int64]), nil
+		return scalar(x.unixNanoTerm(as[0].T), types.Typ[types.Int64]), nil
 	case "hexOf":
 		as, err := evalArgs()
 		if err != nil {
